@@ -57,10 +57,18 @@ def handleMeth (j : Json) : Except String Json := do
   | .error e => pure (errJson e)
   | .ok p =>
     let t? ← targetOfString meth
+    let isEnum := t?.isNone
     let t? := match t? with | some t => some t | none => enumTarget κ
     match t? with
     | none => pure (errJson .attr)
     | some t =>
+      if isEnum then
+        -- `M.to_enumerated()`: the model function the theorems are about
+        match toEnumerated κ m p with
+        | .ok r => pure (Json.mkObj [("type", Json.str t.kind.name), ("terms", canonJson r),
+                                     ("noop", toMethodIsNoop κ t m none p)])
+        | .error e => pure (Json.mkObj [("err", Json.str e.name), ("noop", toMethodIsNoop κ t m none p)])
+      else
       let noop := toMethodIsNoop κ t m deg p
       match toMethod κ t m deg p with
       | .ok r => pure (Json.mkObj [("type", Json.str t.kind.name), ("terms", canonJson r), ("noop", noop)])
